@@ -543,7 +543,7 @@ def kind_of(ty):
         return "p"
     if t.endswith("*"):
         return "p"
-    if "iterator" in t or t in ("InputIt", "InputIter", "ForwardIt", "It"):
+    if "iterator" in t or t in ("InputIt", "InputIter", "ForwardIt", "It", "InIt", "Iter", "BidiIt", "RandomIt"):
         return "it"
     if "basic_inplace_string" in t or t in ("StringView",) or "string_view" in t or "static_vector" in t or "inplace_vector" in t:
         return "s"
@@ -656,6 +656,69 @@ def spec_for(db, rec, name, params):
     return POST_SPECS.get((name, kinds)), kinds
 
 
+def _ref(n):
+    return {"k": "ref", "n": n, "d": "param"}
+
+
+def _synthetic(name, arg):
+    return {"k": "expr", "e": {"k": "call", "f": {"k": "ref", "n": name, "d": "synthetic"}, "a": [arg]}}
+
+
+def summarise_loops(st, plus_one):
+    """Replace counting loops whose body changes the size by exactly +1 per iteration through one specified member call by a
+    synthetic statement: `while (n != 0) { push_back(x); --n; }` -> __size_add(n); `for (; first != last; ++first) push(...)`
+    -> __size_add(last - first); `while (n != size()) emplace_back(...)` -> __size_set(n). Anything else is left alone."""
+    if st is None or not isinstance(st, dict):
+        return st
+    k = st.get("k")
+    if k == "seq":
+        return dict(st, s=[summarise_loops(c, plus_one) for c in st["s"]])
+    if k == "if":
+        return dict(st, then=summarise_loops(st.get("then"), plus_one), **({"else": summarise_loops(st.get("else"), plus_one)} if st.get("else") else {}))
+    if k in ("for", "while") and st.get("c") is not None:
+        body = st.get("body")
+        stmts = body["s"] if body and body.get("k") == "seq" else ([body] if body else [])
+        exprs = [x["e"] for x in stmts if x.get("k") == "expr"]
+        if len(exprs) != len(stmts):
+            return st
+        inc = [st["inc"]] if st.get("inc") is not None else []
+        calls = []
+        steps = {}
+        for e in exprs + inc:
+            for y in (astx.walk_expr(e) if e.get("k") == "bin" and e.get("op") == "," else [e]):
+                y0 = astx.strip_casts(y)
+                if y0 is None:
+                    continue
+                if y0.get("k") == "call" and astx.callee(y0)[0] in plus_one:
+                    calls.append(y0)
+                elif y0.get("k") == "un" and y0["op"] in ("++", "--") and astx.strip_casts(y0["e"]).get("k") == "ref":
+                    steps[astx.strip_casts(y0["e"])["n"]] = y0["op"]
+                elif y0.get("k") == "call" or (y0.get("k") == "bin" and y0["op"] in ("=", "+=", "-=")):
+                    if not (e.get("k") == "bin" and e.get("op") == ","):
+                        return st
+        if len(calls) != 1:
+            return st
+        c = astx.strip_casts(st["c"])
+        if c is None or c.get("k") != "bin" or c["op"] not in ("!=", ">", "<"):
+            return st
+        l, r = astx.strip_casts(c["l"]), astx.strip_casts(c["r"])
+        # while (n != 0) { ...; --n; }
+        for a, b in ((l, r), (r, l)):
+            if a is not None and a.get("k") == "ref" and astx.int_value(b) == 0 and steps.get(a["n"]) == "--" and len(steps) == 1:
+                return _synthetic("__size_add", a)
+        # for (; first != last; ++first)
+        if c["op"] == "!=" and l is not None and r is not None and l.get("k") == "ref" and r.get("k") == "ref":
+            if steps.get(l["n"]) == "++" and len(steps) == 1:
+                return _synthetic("__size_add", {"k": "bin", "op": "-", "l": r, "r": l})
+        # while (n != size()) emplace_back(...)
+        for a, b in ((l, r), (r, l)):
+            if a is not None and a.get("k") == "ref" and b is not None and b.get("k") == "call" and astx.callee(b)[0] == "size" and not steps \
+                    and c["op"] == "!=":
+                return _synthetic("__size_set", a)
+        return st
+    return st
+
+
 def size_changers(db, records):
     """names of member functions (of the given record family) that may change the size: they store it directly or call one
     that does (least fixed point over the own-object call relation)"""
@@ -714,7 +777,9 @@ def check_post(chk, db, records, rule="POST"):
         verdict = True
         why = None
         bad = None
-        for p in SP.paths(f["body"]):
+        plus_one = set(k0[0] for k0, v0 in POST_SPECS.items() if k0[0] in ("push_back", "emplace_back", "unchecked_push_back", "unchecked_emplace_back"))
+        body = summarise_loops(f["body"], plus_one)
+        for p in SP.paths(body):
             env = Env(f, False)
             names = [q["n"] for q in f["params"]]
             for i in bounded_idx:
@@ -768,7 +833,13 @@ def check_post(chk, db, records, rule="POST"):
                         if x.get("k") == "call":
                             nm, q, recv, kind = astx.callee(x)
                             own = (kind == "member" and astx.is_this(recv)) or (kind == "free" and x["f"].get("d") in ("unresolved", "CXXMethod") and not (x["f"].get("qual") or ""))
-                            if nm in SIZE_STORES and own and len(x["a"]) == 1:
+                            if nm in ("__size_add", "__size_set") and x["f"].get("d") == "synthetic":
+                                t = lin(x["a"][0], env)
+                                if t is None:
+                                    unknown = "loop trip count not linear"
+                                else:
+                                    env.size = env.size + t if nm == "__size_add" else t
+                            elif nm in SIZE_STORES and own and len(x["a"]) == 1:
                                 t = lin(x["a"][0], env)
                                 if t is None:
                                     unknown = "size expression not linear"
